@@ -22,7 +22,7 @@ FRAGS = ["c", "d4", "r", "l8", "o", "v", "q", "t", "n60", "n", ",", "[", "]", ":
          "SysEx$=", "SysEx(", "MasterVolume(", "MasterVolume(100)", "ResetGM", "INT A", "INT A=", "STR S={", "ARRAY B=(1,", "PRINT(", "PRINT(5%0)",
          "IF(", "IF(1){", "ELSE{", "FOR(", "FOR(INT I=0;I<3;I++){", "WHILE(1){c", "FUNCTION F(", "FUNCTION F(A){", "RETURN(", "F(", "Random(", "Random(0)",
          "RandomSelect(", "MID({abc},5,", "MID(", "SizeOf(", "CHR(", "REPLACE(", "#A={", "#A", "#?1", "$a{", "Rhythm{", "Rhythm{b", ".onNote(", ".onTime(",
-         "v.onTime(0,", "M.Frequency(0)", "M.onTime(0,127,10)", ".Random", "v.Random=", "v__1", "v_", "q__", "t__", "~{", "~{}={x}", "~{a}={", "//", "/*", "*/",
+         "v.onTime(0,", "M.Frequency(0)", "M.onTime(0,127,10)", ".Random", "v.Random=", "v__1", "v_", "q__", "t__", "~{", "~{}={x}", "~{a}={", "~{ }={}", "~{ }={x}", "~{\t}={c}", "~{ あ }={d}", "ドレミ cde", "//", "/*", "*/",
          "{\"", "\"}", "\n", " ", ";", "|", "End", "Slur(", "Slur(3)", "c&", "&", "PB(", "PB.onTime(", "p.onTime(", "BR(", "RPN(", "NRPN(", "DirectSMF(",
          "NoteOn(", "Include(", "Key(", "TrackKey(", "PlayFrom(", "MeasureShift(", "System.", "System.vAdd(", "vAdd(", "ド", "レ", "音符", "【", "「", "　", "Ｃ",
          "あ", "　", "﻿", "\U0001F600", "\x00", "\\", "`", "\"", "1", ")", "(1)", "=1", "(1,2,3)", "{x}", "(-1)", "(99999)"]
@@ -88,17 +88,24 @@ def run(ctx):
     if os.path.exists(p):
         srcs = [json.loads(l)["src"] for l in open(p) if l.strip()] + srcs
     srcs = list(dict.fromkeys(srcs))
-    lines = ["compile\t%s\t0" % vlib.enc_text(s) for s in srcs]
-    got = ctx.impl(lines, stall=8)
-    for s, g in zip(srcs, got):
-        ctx.count("inputs", s if len(s) >= 2 else None)
-        if g in ("HANG", "ABORT") and requested_work(s):
-            ctx.dist["excluded_requested_work"] = ctx.dist.get("excluded_requested_work", 0) + 1
-            continue
-        if g in ("PANIC", "HANG", "ABORT", "MISSING"):
-            ctx.oracle_fail("compile() %s" % {"PANIC": "panics", "HANG": "does not return (watchdog)", "ABORT": "aborts the process",
-                                              "MISSING": "gave no result"}[g], "compile\t%s" % vlib.enc_text(s), g, "returns bytes and a log",
-                            input_text=s)
+    # in batches: once a handful of crashing inputs is known the rest of the search is skipped (each hang costs a watchdog period)
+    found = 0
+    for b in range(0, len(srcs), 3000):
+        part = srcs[b:b + 3000]
+        got = ctx.impl(["compile\t%s\t0" % vlib.enc_text(s) for s in part], stall=8)
+        for s, g in zip(part, got):
+            ctx.count("inputs", s if len(s) >= 2 else None)
+            if g in ("HANG", "ABORT") and requested_work(s):
+                ctx.dist["excluded_requested_work"] = ctx.dist.get("excluded_requested_work", 0) + 1
+                continue
+            if g in ("PANIC", "HANG", "ABORT", "MISSING"):
+                found += 1
+                ctx.oracle_fail("compile() %s" % {"PANIC": "panics", "HANG": "does not return (watchdog)", "ABORT": "aborts the process",
+                                                  "MISSING": "gave no result"}[g], "compile\t%s" % vlib.enc_text(s), g, "returns bytes and a log",
+                                input_text=s)
+        if found >= 5:
+            ctx.notes.append("search stopped after %d crashing inputs (batch %d of %d)" % (found, b // 3000 + 1, (len(srcs) + 2999) // 3000))
+            break
     for s in srcs[:5]:
         ctx.sample({"source": s[:100]})
     # correspondence: wherever the core model returns a value, the implementation returns the same value
